@@ -118,6 +118,14 @@ package abci
 //@   closure 1 ensures resp.Status == types.ResponseProcessProposal_REJECT && old(resp.Status) != types.ResponseProcessProposal_REJECT ==> GPropResets > old(GPropResets)
 //@   note the deferred handler that turns a panic of the proposal execution into REJECT also resets the proposal state (fresh tree at the committed root, no results): a rejected proposal has been executed PARTLY, and if the same block is decided after all, BeginBlock must not find "same hash, needs execution" over the half-written overlay - it would apply the block's updates twice and leave this replica with another state root (seed C01_i moved the reset into the error branch, which is never taken: every failure of the execution is a panic). The handler's body is executed with an arbitrary state (closure 1 ensures); that a panic of the execution reaches it is Go's defer/recover semantics, not modelled
 
+//@ func abciMux.DeliverTx
+//@   props C10
+//@   bodyonly
+//@   requires mux != nil && mux.state != nil && mux.state.proposal != nil
+//@   assume-pre abci\.(abciMux\.executeTx|applicationState\.NewContext|proposalState\.needsExecution)$
+//@   panics when (defined(err) && unavail(err)) || len(mux.state.proposal.resultsDeliverTx) == 0
+//@   note (C10) delivering a transaction stops the node (explicit panic) in exactly two situations: the execution reported an UNAVAILABLE-STATE error (results computed over unavailable or corrupted state must not be committed), or the cached results of an already executed proposal ran out (the cache is corrupted; executeProposal is under contract for producing one result per transaction). Every other failure of a transaction - whatever bytes it consists of - becomes a failed transaction result
+
 //@ func abciMux.PrepareProposal
 //@   props C01
 //@   requires mux != nil && mux.state != nil
